@@ -113,6 +113,12 @@ def corpus_bg():
     mk([("S", [["S", "a"], []])], [("R", r"[α-ω]+", ["αβ", "ω"], None)], shape="greek")
     mk([("S", [["A", "S"], ["A"]]), ("A", [["a"], ["b"], ["c"]])],
        [("R", r"ab", ["ab"], 15), ("R", r"zz", ["zz"], 15), ("R", r"abc", ["abc"], None)], shape="prio-groups")
+    # a production ending in a nullable symbol, inside a list, followed by layout: right-nulled reductions in GLR and
+    # the place of the empty node relative to the layout (LR and GLR must agree, C07; node span = hull of children, C13)
+    for k, lay in enumerate([None] + LAYOUTS):
+        mk([("S", [["S", "I"], ["I"]]), ("I", [["a", "B", "c", "D"]]), ("B", [[], ["b"]]), ("D", [[], ["d"]])],
+           [("S", "a", ["a"], None), ("S", "b", ["b"], None), ("S", "c", ["c"], None), ("S", "d", ["d"], None)],
+           layout=lay, shape="rn-trailing-empty" + ("+layout%d" % k if lay else ""))
     return C
 
 
